@@ -132,20 +132,47 @@ def parse_deps(dfile: Path) -> list[str]:
     return [t for t in rest.split() if t]
 
 
+def _norm(path: str) -> tuple[str, str]:
+    """(location-independent name, path to read in THIS checkout) so that a snapshot of /verif elsewhere (vp run) and
+    the main checkout share one object cache."""
+    for marker, base in (("/build/shim/", shim_dir()), ("/harness/", VERIF / "harness")):
+        i = path.find(marker)
+        if i >= 0 and not path.startswith(str(REPO) + "/"):
+            rel = path[i + len(marker):]
+            return "$VERIF" + marker + rel, str(base / rel)
+    for marker in ("/gen/hgraph/", "/gensrc/"):
+        i = path.find(marker)
+        if i >= 0 and "/.build/" in path or (i >= 0 and os.environ.get("VERIF_BUILD_DIR") and path.startswith(os.environ["VERIF_BUILD_DIR"])):
+            return "$BUILD" + path[i:], path
+    if path.startswith(str(REPO) + "/"):
+        return "$REPO" + path[len(str(REPO)):], path
+    return path, path
+
+
 def tu_key(flags: list[str], src: Path, dfile: Path) -> str | None:
     if not dfile.exists():
         return None
     h = hashlib.sha256()
-    h.update(("\0".join(flags) + "\0" + compiler_id()).encode())
+    nflags = []
+    for f in flags:
+        if f.startswith("-I"):
+            nflags.append("-I" + _norm(f[2:] + "/")[0])
+        else:
+            nflags.append(_norm(f)[0] if f.startswith("/") else f)
+    h.update(("\0".join(nflags) + "\0" + compiler_id()).encode())
     deps = parse_deps(dfile)
     if str(src) not in deps:
         deps.append(str(src))
-    for d in sorted(set(deps)):
+    items = []
+    for d in set(deps):
         # system headers do not change inside a sandbox run; hash only repo/verif/generated files
-        if d.startswith("/usr/") :
+        if d.startswith("/usr/"):
             continue
-        h.update(d.encode())
-        h.update(file_hash(d).encode())
+        name, real = _norm(d)
+        items.append((name, file_hash(real)))
+    for name, fh in sorted(items):
+        h.update(name.encode())
+        h.update(fh.encode())
     return h.hexdigest()
 
 
